@@ -171,4 +171,20 @@ def install(w):
         out["evaluate." + fname] = (f, c)
     out["evaluate.node"] = (evaluate.node, frame_contract(w, EV + "node", {"node": "Node"}, node_param="node",
                                                           extra_requires=lambda s, node, **kw: {"wf": wf_sub(s, node), "kids-typed": kids_typed(s)}, result_ty="opt:list:val"))
+    # ---- insertion-index computation, for an arbitrary rule: the Rule instance is built by the real constructor and its flattened
+    # child-name list is then replaced by an arbitrary list of strings (the only rule data these two functions read)
+    from metapype.eml import rule as rule_mod
+
+    def any_rule(ip):
+        r = ip.call(rule_mod.Rule, ["anyNameRule"], {})
+        t = z3.Int("a_rule_child_names")
+        ip.c.assume(ip.c.ty_fact(Val.ref(t), "list:str"))
+        j = z3.Int("rn_j")
+        ip.c.assume(smt.FA([j], Val.is_strv(ip.c.heap.get("lelem")[t][j]), patterns=[ip.c.heap.get("lelem")[t][j]]))
+        r.fields["_rule_children_names"] = Sym(t, "list:str")
+        return r
+    R = "metapype.eml.rule:Rule."
+    out["Rule.child_insert_index"] = (rule_mod.Rule.child_insert_index, frame_contract(w, R + "child_insert_index", {"self": any_rule, "parent": "Node", "new_child": "Node"}, result_ty="val"))
+    w.loop(R + "child_insert_index", 1, **loop_frames(frames=False, var_types={"index": "int", "child": "Node", "parent_child_index": "int"}))
+    out["Rule.is_allowed_child"] = (rule_mod.Rule.is_allowed_child, frame_contract(w, R + "is_allowed_child", {"self": any_rule, "child_name": "str"}, result_ty="val"))
     return out
